@@ -231,15 +231,13 @@ def check(rep: Any, prop: str) -> bool:
     rep.add("polymorphic_link_witness", info)
     rep.nontrivial(("polylink", in_domain, early))
     replay = {"kind": "polylink", **{k: v for k, v in rec.items() if k != "events"}, "events": rec["events"][:60]}
-    if sync_wrong:
-        rep.finding("polylink-sync", f"polymorphic-link request: the SYNC run does not return the joined totals: {rec['sync']}", replay)
-        return True
-    if early or wrong:
-        what = (f"one polymorphic Link used by two pairs of feature groups: the second consumer (step {rec['cons2']}) "
-                + ("began before its own JoinStep (step %d) had ended" % rec["join2"] if early else "")
-                + (f"; THREADING run {rec['status']} with {rec['threading'] if rec['status'] == 'ok' else rec['exc']} instead of {EXPECTED}" if wrong else ""))
+    if early or wrong or sync_wrong:
+        what = (f"one polymorphic Link used by two pairs of feature groups: "
+                + (f"the second consumer (step {rec['cons2']}) began before its own JoinStep (step {rec['join2']}) had ended; " if early else "")
+                + (f"THREADING run {rec['status']} with {rec['threading'] if rec['status'] == 'ok' else rec['exc']} instead of {EXPECTED}; " if wrong else "")
+                + (f"the SYNC run gives {rec['sync']} instead of {EXPECTED}" if sync_wrong else ""))
         if in_domain:
-            rep.finding(f"{prop}-{KF_KEY}", what, replay)           # recorded finding (domain decided in Coq)
+            rep.finding(f"{prop}-{KF_KEY}", what, replay)           # recorded finding (domain decided in Coq on the exported plan)
         else:
             rep.finding("polylink-outside-domain", what + " although no two steps of the plan produce one uuid", replay)
             found = True
